@@ -384,8 +384,9 @@ func (x *c09Extract) stmt(s ast.Stmt) string {
 	case *ast.RangeStmt:
 		for _, kv := range []ast.Expr{s.Key, s.Value} {
 			if kv != nil {
-				if _, ok := kv.(*ast.Ident); !ok || s.Tok != token.DEFINE {
-					x.fail(s, "range variables must be newly defined identifiers")
+				id, ok := kv.(*ast.Ident)
+				if !ok || s.Tok != token.DEFINE || id.Name == x.recv || x.pkgVars[id.Name] {
+					x.fail(s, "range variables must be newly defined identifiers that shadow nothing")
 				}
 			}
 		}
@@ -624,11 +625,28 @@ const (
 )
 
 type c09H struct {
-	out   *verifWriter
-	mbBuf []uint64
-	arena []byte
-	meta  []uint64
-	owner []uint32
+	out        *verifWriter
+	mbBuf      []uint64
+	arena      []byte
+	meta       []uint64
+	owner      []uint32
+	stuckAfter time.Duration
+}
+
+type c09Stuck struct{}
+
+// guarded runs one call of the code under test in its own goroutine; if it has not returned after the
+// watchdog time (120 s by default for a call that takes microseconds) the hang becomes an observation:
+// `stuck` is printed as the call's result and the harness stops.
+func (h *c09H) guarded(line, stuckObs string, f func()) {
+	done := make(chan struct{})
+	go func() { defer close(done); f() }()
+	select {
+	case <-done:
+	case <-time.After(h.stuckAfter):
+		h.out.printf("%s | %s\n", line, stuckObs)
+		panic(c09Stuck{})
+	}
 }
 
 func (h *c09H) setMap(regs []c09Region) {
@@ -729,14 +747,14 @@ func (h *c09H) seqAlloc() (uint64, bool) {
 	var f mm.Frame
 	var err *kernel.Error
 	panicked := false
-	func() {
+	h.guarded("a", "stuck", func() {
 		defer func() {
 			if r := recover(); r != nil {
 				panicked = true
 			}
 		}()
 		f, err = bitmapAllocator.AllocFrame()
-	}()
+	})
 	ok := false
 	switch {
 	case panicked:
@@ -769,7 +787,8 @@ func c09FreeCode(f uint64) (code int) {
 }
 
 func (h *c09H) seqFree(f uint64) bool {
-	code := c09FreeCode(f)
+	code := 0
+	h.guarded(fmt.Sprintf("f %d", f), "stuck", func() { code = c09FreeCode(f) })
 	h.out.printf("f %d | %d\n", f, code)
 	h.lockLeak()
 	return code == 0
@@ -820,7 +839,16 @@ func c09BuildMap(r *vrng, pools []int) (regs []c09Region, ks, ke uint64, unmanag
 	return
 }
 
-func (h *c09H) round(id string, rd c09Round, stuckAfter time.Duration) (stuck bool) {
+func (h *c09H) round(id string, rd c09Round) (stuck bool) {
+	stuckAfter := h.stuckAfter
+	defer func() {
+		if r := recover(); r != nil {
+			if _, ok := r.(c09Stuck); !ok {
+				panic(r)
+			}
+			stuck = true
+		}
+	}()
 	h.out.printf("case %s\n", id)
 	r := &vrng{s: rd.seed}
 	regs, ks, ke, unmanaged := c09BuildMap(r, rd.pools)
@@ -1011,12 +1039,13 @@ wait:
 		}
 	}
 	debug.SetGCPercent(gc)
-	h.out.printf("round %d %d %d %d p", workers, rd.ops, yield, procs)
+	roundOp := fmt.Sprintf("round %d %d %d %d p", workers, rd.ops, yield, procs)
 	for _, n := range rd.pools {
-		h.out.printf(" %d", n)
+		roundOp += fmt.Sprintf(" %d", n)
 	}
+	stuckObs := fmt.Sprintf("%d 0 1 0 t 0 0 %d 0 0 c %d 0 0 0 0 0 0 0 0 0", atomic.LoadInt64(&st.dup), free0, atomic.LoadInt64(&tick))
 	if stuck {
-		h.out.printf(" | %d 0 1 0 t 0 0 %d 0 0 c %d 0 0 0 0 0 0 0 0 0\n", atomic.LoadInt64(&st.dup), free0, atomic.LoadInt64(&tick))
+		h.out.printf("%s | %s\n", roundOp, stuckObs)
 		return true
 	}
 
@@ -1031,35 +1060,37 @@ wait:
 		totalsOk = 1
 	}
 	var drained []uint64
-	var cleanupBad, drainBad int64
-	for i := int64(0); i <= free0+8; i++ {
-		f, err := a.AllocFrame()
-		if err != nil {
-			break
+	var cleanupBad, drainBad, lost int64
+	h.guarded(roundOp, stuckObs, func() {
+		for i := int64(0); i <= free0+8; i++ {
+			f, err := a.AllocFrame()
+			if err != nil {
+				break
+			}
+			if uint64(f) >= c09Table || !atomic.CompareAndSwapUint32(&h.owner[f], 0, c09Drain) {
+				drainBad++ // handed out although somebody holds it (or it was never free)
+				continue
+			}
+			drained = append(drained, uint64(f))
 		}
-		if uint64(f) >= c09Table || !atomic.CompareAndSwapUint32(&h.owner[f], 0, c09Drain) {
-			drainBad++ // handed out although somebody holds it (or it was never free)
-			continue
-		}
-		drained = append(drained, uint64(f))
-	}
-	lost := free0 - nHeld - int64(len(drained)) - drainBad
-	for _, f := range drained {
-		h.owner[f] = 0
-		if c09FreeCode(f) != 0 {
-			cleanupBad++
-		}
-	}
-	for _, m := range heldW {
-		for _, f := range m {
+		lost = free0 - nHeld - int64(len(drained)) - drainBad
+		for _, f := range drained {
 			h.owner[f] = 0
 			if c09FreeCode(f) != 0 {
 				cleanupBad++
 			}
 		}
-	}
-	h.out.printf(" | %d %d 0 %d t %d %d %d %d %d c %d %d %d %d %d %d %d %d %d %d\n",
-		st.dup+drainBad, lost, totalsOk, total, reserved, free0, nHeld, len(drained),
+		for _, m := range heldW {
+			for _, f := range m {
+				h.owner[f] = 0
+				if c09FreeCode(f) != 0 {
+					cleanupBad++
+				}
+			}
+		}
+	})
+	h.out.printf("%s | %d %d 0 %d t %d %d %d %d %d c %d %d %d %d %d %d %d %d %d %d\n",
+		roundOp, st.dup+drainBad, lost, totalsOk, total, reserved, free0, nHeld, len(drained),
 		st.allocOk, st.oom, st.freeOk, st.unmOk, st.foreign, st.allocBad, st.freeBad, st.unmBad, st.panics, cleanupBad)
 	h.lockLeak()
 	h.stats() // must be the state the sequential phase left: nothing lost, nothing invented
@@ -1096,7 +1127,7 @@ func TestVerifC09(t *testing.T) {
 		ksync.VerifC09SetYield(nil)
 	}()
 	h.install()
-	stuckAfter := time.Duration(verifEnvInt("VERIF_C09_STUCK_S", 120)) * time.Second
+	h.stuckAfter = time.Duration(verifEnvInt("VERIF_C09_STUCK_S", 120)) * time.Second
 	ops := verifEnvInt("VERIF_C09_OPS", 4000)
 	if os.Getenv("VERIF_TIER") == "thorough" {
 		ops *= 4
@@ -1108,7 +1139,7 @@ func TestVerifC09(t *testing.T) {
 	for _, pools := range [][]int{{2}, {3, 1}, {2, 1, 1}, {64}, {65}, {66, 1}, {130}, {63, 64, 65}, {5, 130, 1}, {2, 1, 2, 3, 130}} {
 		for _, wy := range [][2]int{{2, 0}, {16, 1}, {14, 0}} {
 			b++
-			if h.round(fmt.Sprintf("b%d", b), c09Round{pools, wy[0], ops, wy[1], uint64(b)}, stuckAfter) {
+			if h.round(fmt.Sprintf("b%d", b), c09Round{pools, wy[0], ops, wy[1], uint64(b)}) {
 				return
 			}
 			h.out.w.Flush()
@@ -1122,7 +1153,7 @@ func TestVerifC09(t *testing.T) {
 			pools = append(pools, c09Sizes[r.intn(len(c09Sizes))])
 		}
 		rd := c09Round{pools, r.between(2, 16), ops/2 + r.intn(ops), r.intn(2), r.next()}
-		if h.round(fmt.Sprint(i), rd, stuckAfter) {
+		if h.round(fmt.Sprint(i), rd) {
 			return
 		}
 		h.out.w.Flush()
